@@ -10,6 +10,8 @@ impl<'a> PeView<'a> {
 		match pe64::PeView::from_bytes(image) {
 			Ok(file) => Ok(Wrap::T64(file)),
 			Err(Error::PeMagic) => Ok(Wrap::T32(pe32::PeView::from_bytes(image)?)),
+			// A small PE32 image can be too short to hold the larger PE32+ headers, in which case the magic was never looked at
+			Err(Error::Bounds) => pe32::PeView::from_bytes(image).map(Wrap::T32).map_err(|_| Error::Bounds),
 			Err(err) => Err(err),
 		}
 	}
